@@ -137,17 +137,15 @@ def index_problems(state):
                     out.append(("live_entry_not_under_its_oid", side, str(ss.oid)[:40], ss.path))
                 if state.lookup_oid(side, ss.oid) is not ent:
                     out.append(("lookup_oid_disagrees", side, str(ss.oid)[:40]))
-            if ss.path:
-                if ss.oid is None:
-                    out.append(("path_without_oid", side, ss.path))
-                elif paths[side].get(ss.path, {}).get(ss.oid) is not ent:
+            if ss.path and ss.oid is not None:
+                # a side-state without an id is vacant on that side (an ousted entry keeps a stale path string there):
+                # only sides that carry an id are "current" in the statement's sense
+                if paths[side].get(ss.path, {}).get(ss.oid) is not ent:
                     out.append(("live_entry_not_under_its_path", side, ss.path, str(ss.oid)[:40]))
                 elif ent not in state.lookup_path(side, ss.path, stale=True):
                     out.append(("lookup_path_disagrees", side, ss.path))
     expect = set()
     for ent in live:
-        if ent.ignored.value == "discarded":
-            continue
         if (ent[0].changed and ent[0].oid is not None) or (ent[1].changed and ent[1].oid is not None):
             expect.add(ent)
     for ent in pending:
@@ -229,19 +227,28 @@ def persist_problems(sim):
     return out
 
 
-def state_digest(st):
-    """What lookups answer: per side oid -> fields, path -> oids, pending set; keyed by storage id."""
+def state_digest(st, paths=None):
+    """What the public lookups answer: per side id -> entry (storage id + fields), path -> entries (default, i.e.
+    non-stale lookup), pending set; entries are identified by storage id."""
     d = {"oid": [{}, {}], "path": [{}, {}], "pending": set()}
     for side in (0, 1):
-        for oid, ent in st._oids[side].items():             # pylint: disable=protected-access
-            d["oid"][side][oid] = (ent.storage_id, str(decode_row(ent.serialize())))
-        for path, b in st._paths[side].items():             # pylint: disable=protected-access
-            if path is None:
+        for oid in list(st._oids[side]):                    # pylint: disable=protected-access
+            if oid is None:
                 continue
-            d["path"][side][path] = sorted((str(o), e.storage_id) for o, e in b.items())
-    for ent in st._changeset_storage:                       # pylint: disable=protected-access
+            ent = st.lookup_oid(side, oid)
+            d["oid"][side][oid] = (ent.storage_id, str(decode_row(ent.serialize())))
+        keys = set(k for k in st._paths[side] if k is not None)     # pylint: disable=protected-access
+        if paths is not None:
+            keys |= paths[side]
+        for path in keys:
+            d["path"][side][path] = sorted(str(e.storage_id) for e in st.lookup_path(side, path))
+    for ent in st.changes:
         d["pending"].add(ent.storage_id)
     return d
+
+
+def path_keys(st):
+    return [set(k for k in st._paths[side] if k is not None) for side in (0, 1)]     # pylint: disable=protected-access
 
 
 def reload_problems(sim):
@@ -253,7 +260,8 @@ def reload_problems(sim):
     snap = S.MockStorage(copy.deepcopy(sim._storage_dict))  # pylint: disable=protected-access
     cls = type(st)
     other = cls(sim.providers, snap, st._tag)               # pylint: disable=protected-access
-    a, b = state_digest(st), state_digest(other)
+    pk = [x | y for x, y in zip(path_keys(st), path_keys(other))]
+    a, b = state_digest(st, pk), state_digest(other, pk)
     out = []
     for side in (0, 1):
         la = {k: v for k, v in a["oid"][side].items() if k is not None}
